@@ -113,7 +113,8 @@ Definition rs_decode (content : bytes) : res bval :=
 
 (* decode_dict(...) under the except RecursionError clause *)
 Definition rs_convert (v : bval) : res pyval :=
-  match decode_value depth_limit v with
+  (* read_stream calls decode_dict directly (one frame less than decode_value -> decode_dict), as convert() calls encode_dict *)
+  match decode_value (S depth_limit) v with
   | Err IRecursion => if catches XRecursionError ex_read_convert_catches then Err DBdecode else Err IRecursion
   | r => r
   end.
